@@ -63,8 +63,12 @@ package hotstuff
 //@   ensures content(result) == tmcontent(timeout.ID, timeout.View, timeout.SyncInfo.qc != nil, *timeout.SyncInfo.qc) && fresh(result)
 //@   modifies alloc
 
+// The bytes of a signature are a function of the (immutable) signature object.
+//@ pure func sigbytes(s QuorumSignature) int
+//@ pure func sigbyteslen(s QuorumSignature) int
 //@ interface QuorumSignature.ToBytes
 //@   ensures fresh(result) || result == nil
+//@   ensures [deterministic] content(result) == sigbytes(self) && len(result) == sigbyteslen(self)
 //@   modifies alloc
 
 //@ func NewPartialCert
